@@ -30,6 +30,12 @@ IsNum(x) == x.t = "n"
 
 \* the value stored for a failed call: CallServiceFailed{ret_code, message} as JSON
 FailedValue(rc, body) == Obj(<<KV("message", Str(body)), KV("ret_code", Num(rc))>>)
+\* a ret_code-0 result whose body is not JSON (try_to_service_result): recorded as a failed call with ret_code i32::MAX
+\* and a message that embeds the decoder's text; the specification knows that text for the one junk body of the algebra
+JunkDecodeText(body) == IF body = "not json{" THEN "expected ident at line 1 column 2" ELSE "?"
+UndecodableValue(body) ==
+    FailedValue(2147483647, "call_service result 'ret_code: 0, result: '" \o body
+                            \o "'' can't be serialized or deserialized with an error: " \o JunkDecodeText(body))
 
 Quote(s) == "\"" \o s \o "\""
 
